@@ -485,6 +485,13 @@ def traceCaller (ms : List Matcher) (ns : NsMap) (vs : Vars) (skip : Bool) (sts 
     (events : List Event) : List (Option Val) :=
   maskSkip skip 0 events (runTest ms ns vs sts events)
 
+/-- `yield result` for a truthy result other than `True` -/
+def itemOf (v : Val) (e : Event) : Item :=
+  match v with
+  | .attrs a => Item.attrs a
+  | .event e' => Item.ev e'
+  | _ => Item.ev e
+
 /-- `Path.select`: `depth > 0` while the events of a matched element are passed through
     (the matcher is still fed, update-only) -/
 def selectGo (ms : List Matcher) (ns : NsMap) (vs : Vars) : List MState → Nat → List Event → List Item
@@ -496,11 +503,7 @@ def selectGo (ms : List Matcher) (ns : NsMap) (vs : Vars) : List MState → Nat 
         .ev e :: selectGo ms ns vs sts depth es
       else if v == .bool true then
         .ev e :: selectGo ms ns vs sts (if e.isStart then 1 else 0) es
-      else if v.truthy then
-        (match v with
-          | .attrs a => Item.attrs a
-          | .event e' => Item.ev e'
-          | _ => Item.ev e) :: selectGo ms ns vs sts 0 es
+      else if v.truthy then itemOf v e :: selectGo ms ns vs sts 0 es
       else selectGo ms ns vs sts 0 es
 
 def select (paths : List LocPath) (ns : NsMap) (vs : Vars) (events : List Event)
